@@ -1310,6 +1310,20 @@ theorem math_filter_safe (html : List Char) (parsed : Option Stan) (src : List C
     · exact Or.inl ⟨by simp [h], t, rfl, isMathHtml_elements t h⟩
     · exact Or.inr ⟨if isBlock then ['p', 'r', 'e'] else ['t', 't'], by simp [h], encode_safe src⟩
 
+/-- what `math_filter_safe` does NOT give (open finding `marker-markup-unescaped:math-cdata` /
+`:math-comment`): the walk looks at elements only, so a CDATA section or a comment inside math2html's
+HTML is accepted — and the flattener writes both verbatim, `<`, `>`, `"` of the formula's text
+unescaped (for an HTML reader `<![CDATA[>` and `<!-->` end at once and what follows is live markup).
+Full statement wanted: "kept HTML ⇒ every character of the formula's text is escaped"; it needs
+`isMathHtml` to refuse children that are neither text nor element. -/
+theorem math_filter_cdata_counterexample :
+    isMathHtml (.tag [] [] [.tag ['s', 'p', 'a', 'n'] [] [.cdata ['>', '<', 'i', 'm', 'g', '/', '>']]]) = true ∧
+    isMathHtml (.tag [] [] [.tag ['s', 'p', 'a', 'n'] [] [.comment ['>', '<', 'i', 'm', 'g', '/', '>']]]) = true ∧
+    (toks (.cdata ['>', '<', 'i', 'm', 'g', '/', '>'])) = [.cdata ['>', '<', 'i', 'm', 'g', '/', '>']] ∧
+    renderTok (.comment ['>', '<', 'i', 'm', 'g', '/', '>']) =
+      ['<', '!', '-', '-', '>', '<', 'i', 'm', 'g', '/', '>', '-', '-', '>'] := by
+  decide
+
 /-- the payloads of the finding `source-text-became-markup:math-*` are refused by the walk: an
 element that is not math2html's, an event-handler attribute, a script URL -/
 theorem math_filter_rejects :
